@@ -58,8 +58,14 @@ def run_store(cases, res):
         except Exception as e:
             impl_out.append({'exc': lib.exc_name(e), 'msg': str(e)[:200]})
         reqs.append([4] + e_fmt(c['s'], c['nw'], c['nf']) + [RMODES.index(c['r']), OMODES.index(c['o'])] + e_list([Fraction(c['v'])], e_dy))
-    outs = model_call(reqs)
-    for c, io, o in zip(cases, impl_out, outs):
+    # the model of set_val on the same Python integer (int64 / uint64 / object carrier as np.array(v) gives it)
+    mreqs = []
+    for c in cases:
+        arr, vd = S.model_arr_enc('i', [c['v']])
+        mreqs.append([10] + e_fmt(c['s'], c['nw'], c['nf']) + [RMODES.index(c['r']), OMODES.index(c['o']), 0] + arr + [vd])
+    allouts = model_call(reqs + mreqs)
+    outs = allouts[:len(reqs)]; mouts = allouts[len(reqs):]
+    for ci, (c, io, o) in enumerate(zip(cases, impl_out, outs)):
         rd = Reader(o); want = rd.lst(rd.z)[0]; so, su = rd.b(), rd.b(); si = rd.b()
         scaled = abs(c['v']) << c['nf'] if c['nf'] >= 0 else abs(c['v'])
         res.count('S:store-python-int', key=tuple(sorted(c.items())), nontrivial=scaled >= 2**53)
@@ -71,7 +77,11 @@ def run_store(cases, res):
         if io['status'][:2] != (so, su):
             res.fail(c, 'C19: overflow/underflow flag wrong when storing a Python integer', expected=(so, su), got=io['status'][:2]); continue
         if c['nf'] < 0 and io['status'][2] != si:
-            res.fail(c, 'C19: inaccuracy flag wrong when storing a Python integer into a format with a negative fraction length (the integer was rounded before it was compared)', expected=si, got=io['status'][2])
+            res.fail(c, 'C19: inaccuracy flag wrong when storing a Python integer into a format with a negative fraction length (the integer was rounded before it was compared)', expected=si, got=io['status'][2]); continue
+        mo = S.read_model_store(mouts[ci])
+        if mo['kind'] != 'ok' or mo['codes'] != [io['code']] or mo['status'][:2] != io['status'][:2] or (c['nf'] < 0 and mo['status'][2] != io['status'][2]):
+            res.fail(c, 'model Store.set_val_real disagrees with the implementation although the Spec agrees (Python integer input)', expected=str(mo)[:200], got=(io['code'], io['status']))
+            res.failures[-1]['no_input'] = True
 
 def arith_items(rng, n):
     import arithlib as A
